@@ -99,6 +99,11 @@ func runC16(env *core.Env) {
 		core.R("", "--json", "new", "task", "--title", "X", "--claim", "me"), core.R("", "--json", "new", "task", "--title", "X", "--state", "done"),
 		core.R("", "--json", "new", "task", "--title", "X", "--claim", "me", "--body-stdin").In("the body"),
 		core.R("", "--json", "new", "task").In(`{"title":"X","result_path":"out.txt","result_summary":"s","state":"done"}`),
+		// claimant names with surrounding white space: whatever is recorded, the reply must report exactly that
+		core.R("", "--json", "claim", rich.ByState["todo"], "--agent", " bob@host "), core.R("", "--json", "--agent", "\tbob ", "claim", rich.ByState["todo"]),
+		core.R("", "--json", "claim", "--agent", " bob@host "), core.R("", "--json", "set", rich.ByState["todo"]).In(`{"claim":" padded name "}`),
+		core.R("", "--json", "set", rich.ByState["todo"], "--claim", " padded name ", "--state", "blocked"),
+		core.R("", "--json", "new", "task").In(`{"title":"X","claim":" padded name "}`), core.R("", "--json", "--agent", " implicit ", "set", rich.ByState["todo"]).In(`{"state":"doing"}`),
 		core.R("", "--json", "-q", "list"), core.R("", "--json", "-v", "list"), core.R("", "--json", "-v", "new", "task").In(`{"title":"verbose"}`),
 	}
 	for _, r := range extra {
